@@ -39,6 +39,9 @@ CHECKS = {
  "C05": ("complete enumeration of the product (9 leaf types x 5 wrappers x Go return-value menu incl. every list carrier x 3 positions x RS/AS/FS) on the real resolver; schema-directed walk of the encoding/json-decoded response",
          "Every cell of the product is executed; each leaf must have the JSON shape of its declared type or be null, and a clearly unrepresentable value must be null with an error at that path.",
          "encoding/json trusted; findings C05-F1 (enum members) and C05-F2 (fraction truncation) are pinned by the suite and matched by narrow predicates.", "5.5"),
+ "C13": ("bounded-exhaustive enumeration of schemas on the real loader (6 bases + every single valid edit, thorough: pairs; every mutation of the 14-rule catalogue at every site and wrapper nesting; both load routes SDL and AddTypes) against an independent rule checker, with public-API read-back and re-check of every accepted schema",
+         "Every schema in the bound is loaded; the independent checker decides accept/reject; accepted schemas are read back, re-checked and compared canonically; rejections must name the offender.",
+         "The reference rule checker is trusted; mutants it does not itself judge ill-formed are discarded (counted); findings C13-F1..F4 are behaviours pinned by the suite, matched narrowly by rule+site.", "5.13"),
 }
 
 NOT_YET = {}
